@@ -758,10 +758,51 @@ def _ancestors(node):
         p = getattr(p, "_parent", None)
 
 
+def r01c(chk, repo) -> None:
+    """Source coverage: every source character is covered by a token or a placeholder for every configuration."""
+    from ..cfg import cfg_of, origins
+    from ..idioms import conditions_at
+
+    m = repo.mod("src/sqlfluff/core/parser/lexer.py")
+    n = 0
+    for q, f in m.functions():
+        switch = [a.arg for a in f.args.args + f.args.kwonlyargs if a.arg in ("add_indents", "template_blocks_indent")]
+        ys = [y for y in walk_local(f) if isinstance(y, (ast.Yield, ast.YieldFrom)) and y.value is not None]
+        cfg = None
+        for y in ys:
+            v = y.value
+            cfg = cfg or cfg_of(f)
+            st = cfg.stmt_of(y)
+            vals = [o.expr for o in origins(cfg, v, st)] if isinstance(v, ast.Name) else [v]
+            if not any(isinstance(x, ast.Call) and "TemplateSegment" in norm(x.func) for x in vals):
+                continue
+            n += 1
+            if not switch:
+                continue
+            dep = []
+            for e, pol in conditions_at(cfg, st):
+                for x in ast.walk(e):
+                    if isinstance(x, ast.Name) and x.id in switch:
+                        dep.append(short(e, 50))
+                    elif isinstance(x, ast.Name):
+                        if any(o.kind == "param" and getattr(o.expr, "arg", None) in switch for o in origins(cfg, x, cfg.stmt_of(x) or st)):
+                            dep.append(short(e, 50))
+            chk.require(
+                not dep, "R01c", y,
+                f"{q} emits this placeholder only under {sorted(set(dep))}, which depends on the `{switch[0]}` switch: with template_blocks_indent = False the source "
+                "it stands for (an untaken branch, the body of an empty loop) is covered by no token and no placeholder",
+                detail=f"{q}: placeholder emission independent of the indent switch",
+            )
+    chk.count("R01c.placeholder_yields", n)
+    chk.floor("R01c.placeholder_yields", 3)
+
+
 def run(chk) -> None:
     repo = chk.repo
     chk.rule("R01a", "for every dialect, every character the last-resort matcher cannot consume is consumed by some matcher of the dialect's resolved lexer table (lex never reaches 'Fatal. Unable to lex')")
     chk.rule("R01b", "PyLexer.lex returns violations_from_segments(returned segments); that creates one SQLLexError per segment of the last-resort type; Linter._lex_templated_file returns them all, never drops a non-meta token and converts a raised SQLLexError into a violation")
+    chk.rule("R01c", "whether a placeholder (TemplateSegment) is emitted for source the rendering does not cover never depends on the `template_blocks_indent` switch: no yield of a TemplateSegment in the lexer is conditioned on the add_indents parameter (that switch may only decide Indent / Dedent metas)")
+    r01c(chk, repo)
     lr = last_resort(repo)
     r01b(chk, repo, lr)
     in_selftest = getattr(chk, "in_selftest", False)
@@ -798,6 +839,18 @@ _FILTER_OLD = (
 )
 
 VARIANTS = [
+    Variant(
+        "skipped-source-placeholder-only-with-template-indents", "src/sqlfluff/core/parser/lexer.py",
+        "        if next_tfs and next_tfs.source_slice.start > tfs.source_slice.stop:\n",
+        "        if add_indents and next_tfs and next_tfs.source_slice.start > tfs.source_slice.stop:\n",
+        "R01c", "_handle_zero_length_slice", "seeded C01-4 (same effect): template_blocks_indent = False loses the placeholder of skipped source",
+    ),
+    Variant(
+        "quiet-indent-switch-in-a-boolean-local", "src/sqlfluff/core/parser/lexer.py",
+        '        elif add_indents and tfs.slice_type in ("block_start", "block_mid"):\n',
+        '        elif (opens_branch := add_indents and tfs.slice_type in ("block_start", "block_mid")):\n',
+        "QUIET", None, "R01c: the Indent condition held in a local; placeholders do not depend on it",
+    ),
     # behaviour-preserving refactors: must stay quiet
     Variant(
         "quiet-indent-filter-single-condition", LINTER, _FILTER_OLD,
